@@ -91,7 +91,7 @@ Rings == UNION {[1..n -> Prios] : n \in 1..MaxRing}
 DistsOf(m) == IF m = "spq" THEN Dists ELSE {d \in Dists : d <= 1}
 Init == mode \in Modes /\ pend = {} /\ q = <<>> /\ nsched = 0 /\ hist = <<>>
 Schedule(ring, d) ==
-    /\ (KeepHist => Len(hist) < MaxLen) /\ nsched + Len(ring) <= MaxTasks
+    /\ (KeepHist => Len(hist) < MaxLen) /\ nsched + Len(ring) <= MaxTasks /\ d \in DistsOf(mode)
     /\ LET items == NewTasks(nsched, ring, d)
        IN /\ pend' = pend \cup Range(items)
           /\ q' = ImplSchedule(q, items, d)
@@ -105,7 +105,7 @@ Select ==
           /\ pend' = {t \in pend : t.id # r[1].id}
     /\ hist' = IF KeepHist THEN Append(hist, [op |-> "X", d |-> 0, ps |-> <<>>]) ELSE hist
     /\ UNCHANGED <<nsched, mode>>
-Next == \/ \E ring \in Rings, d \in DistsOf(mode) : Schedule(ring, d)
+Next == \/ \E ring \in Rings, d \in Dists : Schedule(ring, d)
         \/ Select
 Spec == Init /\ [][Next]_vars
 \* long random walks (TLC -simulate): one or two random schedule candidates and the select per step, so that selects
